@@ -163,7 +163,9 @@ def run(prog: Program, res: Result, tier: str) -> None:
     gd = prog.func(HEADER, "Header.get_dmdelays")
     calls = [c for c in calls_in_body(gd.node) if (dotted(c.func) or "").endswith("compute_dmdelays")]
     key = "get_dmdelays"
-    okg = len(calls) == 1 and isinstance(parent(calls[0]), ast.Return) and [norm(a) for a in calls[0].args] == [
+    gflow = flow_of(gd)
+    okg = len(calls) == 1 and isinstance(parent(calls[0]), ast.Return) and [
+        norm(gflow.expand(a, gflow.cfg.node_for(calls[0]), stop={"fch_ref"})) for a in calls[0].args] == [
         "self.chan_freqs", "dm", "self.tsamp", "fch_ref"] and any(k.arg == "in_samples" and norm(k.value) == "in_samples" for k in calls[0].keywords)
     if okg:
         res.ok("R1", gd, calls[0], "get_dmdelays = compute_dmdelays(chan_freqs, dm, tsamp, reference, in_samples)", key=key)
@@ -309,14 +311,18 @@ def run(prog: Program, res: Result, tier: str) -> None:
              and norm(s.test.left) == "ref_freq"]
     key = "ref-names"
     if len(guard) == 1:
-        names = ast.literal_eval(guard[0].test.comparators[0])
+        try:
+            names = ast.literal_eval(guard[0].test.comparators[0])
+        except (ValueError, SyntaxError):
+            names = []
         ga = [c for c in calls_in_body(gd.node) if dotted(c.func) == "getattr" and isinstance(c.args[1], ast.JoinedStr)]
         okt = len(ga) == 1 and norm(ga[0].args[1]) == "f'f{ref_freq}'" and norm(ga[0].args[0]) == "self"
         missing = [n for n in names if f"f{n}" not in hdr.methods and f"f{n}" not in hdr.fields]
-        if okt and not missing and set(names) == {"max", "min", "center", "ch1"}:
+        if names and okt and not missing and set(names) == {"max", "min", "center", "ch1"}:
             res.ok("R5", gd, guard[0], "ref_freq in {max, min, center, ch1} resolves to Header.fmax/fmin/fcenter/fch1", key=key)
         else:
-            res.bad("R5", gd, guard[0], f"reference-frequency names {sorted(names)} do not all resolve to Header attributes (missing {missing})", key=key)
+            res.bad("R5", gd, guard[0], f"reference-frequency names {sorted(names) or '(not a literal set)'} are not resolved through the Header attributes "
+                    f"f<name> (fmax/fmin/fcenter/fch1, missing {missing}): a separate lookup can disagree with them (e.g. for ascending bands)", key=key)
     else:
         res.bad("R5", gd, gd.node, "get_dmdelays no longer validates the reference-frequency name", construct="ref_freq", key=key)
     res.floor("R1", 12)
